@@ -114,7 +114,7 @@ def find_impl(ck, ws, cname, self_pat, trait_pat, name, rule="ANCHOR"):
 ZIP_CALL = re.compile(r"iter::Iterator::zip$|itertools::(multizip|zip)|iter::zip$")
 
 
-def zip_length_sweep(ck, c, scope, name_pat, rule="CMP", exceptions=None):
+def zip_length_sweep(ck, c, scope, name_pat, rule="CMP", exceptions=None, disjoint_args=False):
     """In verifier-side functions: two sequences coming from different sources (statement vs proof, or two
     independently supplied collections) may be zipped only after an enforced comparison of their lengths;
     `zip` silently truncates to the shorter one, so unchecked items would simply not be verified."""
@@ -132,7 +132,8 @@ def zip_length_sweep(ck, c, scope, name_pat, rule="CMP", exceptions=None):
             for cx in rules.comparisons(f):
                 oa = f.origins(cx["a"], deep=True)
                 ob = f.origins(cx["b"], deep=True)
-                if any(a[0] == "call" and a[1].endswith("::len") for a in oa) and any(a[0] == "call" and a[1].endswith("::len") for a in ob):
+                # each operand must be the length of ONE sequence: a comparison of sums of lengths bounds only the total
+                if sum(1 for a in oa if a[0] == "call" and a[1].endswith("::len")) == 1 and sum(1 for a in ob if a[0] == "call" and a[1].endswith("::len")) == 1:
                     rel, _ = rules.cmp_rejects(f, cx)
                     if rel is not None:
                         lens.append((_srcset(oa), _srcset(ob), cx["bb"]))
@@ -142,6 +143,17 @@ def zip_length_sweep(ck, c, scope, name_pat, rule="CMP", exceptions=None):
                     continue
                 a, b2 = srcs
                 if a == b2:
+                    continue
+                # two components of one locally computed value (fields of the same call result, same inputs) are not
+                # independently supplied: their lengths agree by construction of the callee
+                oa_, ob_ = (f.origins(x, deep=True) for x in t["args"][:2])
+                calls_a = set(x for x in oa_ if x[0] == "call" and x[1].startswith(("concordium_", "<concordium_")))
+                calls_b = set(x for x in ob_ if x[0] == "call" and x[1].startswith(("concordium_", "<concordium_")))
+                if calls_a and calls_a == calls_b and set(x for x in a if x.startswith("arg")) == set(x for x in b2 if x.startswith("arg")):
+                    continue
+                # where asked, only sequences coming from different parameters count as independently supplied (a value
+                # derived by a local helper from the same proof has the helper's length invariant, which is not decided here)
+                if disjoint_args and set(x for x in a if x.startswith("arg")) & set(x for x in b2 if x.startswith("arg")):
                     continue
                 n += 1
                 only_a, only_b = a - b2, b2 - a
@@ -176,3 +188,42 @@ def enf_module_sweep(ck, c, scope, floor, what, family=VERIFY_FAMILY):
                 tot += enf_sweep(ck, Fn(b), family=family)
     ck.floor("ENF", "verification-family call sites in " + what, tot, floor)
     return tot
+
+
+ZIPX = re.compile(r"iter::Iterator::zip$|itertools::(multizip|zip)|iter::zip$")
+
+
+def extract_zip_sweep(ck, c, pat):
+    """verifier-side zips of statement components (self) with response components (third argument) in
+    SigmaProtocol::extract_commit_message need a dominating, rejecting comparison of exactly those two lengths"""
+    nz = 0
+    for pth in sorted(c.paths()):
+        if not pat.search(pth):
+            continue
+        f = Fn(c.get(pth))
+        lencmps = []
+        for cx in rules.comparisons(f):
+            oa = f.origins(cx["a"], deep=True)
+            ob = f.origins(cx["b"], deep=True)
+            # each operand is the length of ONE sequence: comparing sums of lengths bounds only the total
+            if sum(1 for a in oa if a[0] == "call" and a[1].endswith("::len")) == 1 and sum(1 for a in ob if a[0] == "call" and a[1].endswith("::len")) == 1:
+                rel, d = rules.cmp_rejects(f, cx)
+                if rel in ("Ne",):
+                    lencmps.append((set(a[1] for a in oa if a[0] == "field"), set(a[1] for a in ob if a[0] == "field"), cx["bb"]))
+        for (bi, t) in f.calls(ZIPX):
+            srcs = [f.origins(a, deep=True) for a in t["args"][:2]]
+            if len(srcs) < 2:
+                continue
+            kinds = []
+            for sset in srcs:
+                kinds.append(("self" if ("arg", 1) in sset else "") + ("resp" if ("arg", 3) in sset else ""))
+            if set(kinds) != {"self", "resp"}:
+                continue
+            nz += 1
+            fa = set(a[1] for a in srcs[kinds.index("self")] if a[0] == "field")
+            fb = set(a[1] for a in srcs[kinds.index("resp")] if a[0] == "field")
+            ok = any(((x & fa and y & fb) or (x & fb and y & fa)) and f.dominates(cb, bi) for (x, y, cb) in lencmps)
+            ck.ob("CMP", pth, "zip-length-checked:%s~%s" % ("/".join(sorted(fa))[:30], "/".join(sorted(fb))[:30]), ok,
+                  "statement components %s are zipped with response components %s only after their lengths were compared (mismatch rejects)" % (sorted(fa), sorted(fb)) if ok else
+                  "statement components %s are zipped with response components %s without an enforced length equality: zip truncates, missing responses are not noticed" % (sorted(fa), sorted(fb)), f.loc(bi))
+    return nz
